@@ -61,6 +61,7 @@ type shadow struct {
 	slots    []int
 	index    map[int]int
 	orphaned bool
+	wiped    uint64 // entries that were still in the slice when an emptied index made the pool reset its storage
 }
 
 func newShadow(u *Universe) *shadow { return &shadow{u: u, index: map[int]int{}} }
@@ -74,6 +75,7 @@ func (p *shadow) add(id int) {
 			return
 		}
 	}
+	p.wiped &^= bit(id)
 	p.slots = append(p.slots, id)
 	p.index[id] = len(p.slots) - 1
 	for _, s := range p.u.Specs[id].Subs {
@@ -97,6 +99,11 @@ func (p *shadow) del(ids []int) {
 	}
 	p.scan()
 	if len(p.index) == 0 {
+		for _, id := range p.slots {
+			if id >= 0 {
+				p.wiped |= bit(id)
+			}
+		}
 		p.slots = nil
 		p.orphaned = false
 	}
@@ -143,7 +150,7 @@ func execSeq(u *Universe, ops []SeqOp, st *seqStats) *viol {
 	appended := int64(0)
 	sh := newShadow(u)
 	cls := func(base string, involved uint64) string {
-		if sh.orphaned {
+		if sh.orphaned || involved&sh.wiped != 0 {
 			return "C18/" + base + orphanSuffix
 		}
 		return "C18/" + base
